@@ -49,6 +49,7 @@ func main() {
 	chk.Assume("GridSampler_checkAndNudgePoints is compared after truncation toward zero (int(coordinate)), which is how the sampler consumes the result; a coordinate in (-1,0) that is left unchanged therefore counts as pulled to 0; points that are neither the first nor the last of the row are kept inside the image")
 	chk.Assume("TransformPoints with an odd number of floats: only absence of a panic and correct transformation of the complete pairs is required (the trailing float is not examined)")
 	chk.Assume("sampling sub-spaces compare only cells whose exact sample coordinates are at least 1/64 pixel away from a pixel boundary (the count of skipped cells is reported); SampleGrid nudge sweeps use translation lattices on which no sample coordinate is an integer; the direct nudge sub-space includes exact integers, where no floating-point transform precedes the decision")
+	chk.Assume("exception to the 1/64-pixel margin: upright grids at an even number of pixels per module with exactly known reference points put every cell centre exactly on an integer coordinate k with every intermediate value exactly representable; there the pixel under the centre is pixel k of the half-open raster [k, k+1) and is required exactly (sub-space 'exact lattice')")
 	chk.Assume("all grids used for nudging are images of straight rows under affine maps, so 'some sample point is two or more pixels outside' and 'an end point of its row is' coincide")
 	if chk.ReplayFile() != "" {
 		replay()
@@ -61,7 +62,7 @@ func main() {
 	for _, s := range []struct {
 		name string
 		run  func()
-	}{{"transform", runTransform}, {"sample", runSample}, {"direct", runNudgeDirect}, {"sweep", runNudgeSample}, {"slanted", runNudgeAffine}, {"twisted", runTwisted}} {
+	}{{"transform", runTransform}, {"sample", runSample}, {"lattice", runExactLattice}, {"direct", runNudgeDirect}, {"sweep", runNudgeSample}, {"slanted", runNudgeAffine}, {"twisted", runTwisted}} {
 		if only == "" || strings.Contains(only, s.name) {
 			s.run()
 		} else {
